@@ -70,6 +70,7 @@ type wWorker struct {
 	dir, base string
 	mux       *http.ServeMux
 	sessions  *webSessionFactory
+	expiredAfterUseAt time.Time
 	tokens    map[string]string
 	sets      map[uint]concrete.ParamSet
 	lines     map[string]string
@@ -156,6 +157,16 @@ func newWWorker(dir string) *wWorker {
 	}
 	w.tokens["expired"] = seal(w.sessions, fmt.Sprintf("Alice:true:%d", now-3600))
 	w.tokens["future"] = seal(w.sessions, fmt.Sprintf("Alice:true:%d", now+3600))
+	// a token with two or three seconds of life left, used once while it is valid; by the time the first edge presents it
+	// it has expired (whatever an earlier acceptance may have left behind in the agent)
+	w.tokens["expired-after-use"] = seal(w.sessions, fmt.Sprintf("Alice:true:%d", now-597))
+	w.expiredAfterUseAt = time.Unix(now-597+600, 0).Add(1200 * time.Millisecond)
+	for _, ep := range []string{"/api/list", "/api/list-full"} {
+		b, _ := json.Marshal(map[string]string{"session": w.tokens["expired-after-use"]})
+		if code, _, raw := w.do(ep, b); code != 200 {
+			panic("the priming request with the short-lived token was refused: " + raw)
+		}
+	}
 	other, _ := NewWebSessionFactory(600 * time.Second)
 	w.tokens["other-instance"] = seal(other, fmt.Sprintf("Alice:true:%d", now))
 	p := strings.SplitN(w.tokens["tok-Alice"], ":", 2)
@@ -220,6 +231,11 @@ func (w *wWorker) run(e *wEdge, variant int) {
 		}
 	}
 	sess := w.tokens[e.Sess]
+	if e.Sess == "expired-after-use" {
+		if d := time.Until(w.expiredAfterUseAt); d > 0 {
+			time.Sleep(d)
+		}
+	}
 	if e.Sess == "garbage" {
 		sess = []string{"AAAA:AAAA", "x", ":", "AAAAAAAAAAAAAAAA:AAAAAAAAAAAAAAAAAAAAAAAAAAAAAAAA", "null"}[variant%5]
 	}
